@@ -162,7 +162,36 @@ def iv(init):
     return None if init is None else init.copy()
 
 
+WATCHDOG = {"limit": 240.0}
+
+
+class _NoTermination(BaseException):
+    pass
+
+
+def _alarm(signum, frame):
+    raise _NoTermination()
+
+
 def sim(be, *a, **kw):
+    """be.simulate under a watchdog: every generated program terminates by construction (the reference bounds the number of
+    measurements per shot before the call is made), so a simulation that is still running after minutes is a shot loop
+    that selected gates other than those the outcomes select.  After the first trip the limit drops to a few seconds so
+    that shrinking stays cheap.  This is a guard against non-termination, not a per-case time budget."""
+    import signal
+    old = signal.signal(signal.SIGALRM, _alarm)
+    signal.setitimer(signal.ITIMER_REAL, WATCHDOG["limit"])
+    try:
+        return _sim(be, *a, **kw)
+    except _NoTermination:
+        WATCHDOG["limit"] = 5.0
+        raise Fail("simulation did not terminate (watchdog)", sig="no-termination")
+    finally:
+        signal.setitimer(signal.ITIMER_REAL, 0)
+        signal.signal(signal.SIGALRM, old)
+
+
+def _sim(be, *a, **kw):
     """be.simulate(...).  Exceptions that surface from third-party code called by Tangelo (cirq, numpy) are attributed
     to the Tangelo frame that made the call; exceptions raised by Tangelo itself pass through unchanged.  (vlib.runner does this itself except when the
     innermost frame has a relative file name, e.g. 'numpy/random/mtrand.pyx', which it mistakes for harness code.)"""
@@ -253,6 +282,7 @@ def collapse_fn(ctx):
 
 @part("meas_exact", quick=220, thorough=9000)
 def meas_exact(ctx):
+    WATCHDOG["limit"] = 240.0
     mw, mu, mm = (4, 10, 4) if ctx.tier == "quick" else (4, 14, 5)
 
     @st.composite
@@ -322,6 +352,7 @@ def meas_exact(ctx):
 
 @part("meas_sampled", quick=140, thorough=5000)
 def meas_sampled(ctx):
+    WATCHDOG["limit"] = 240.0
     mw, mu, mm = (4, 8, 3) if ctx.tier == "quick" else (4, 12, 4)
 
     @st.composite
@@ -458,6 +489,7 @@ def cm_bounds(tier):
 
 @part("cmeas_exact", quick=260, thorough=10000)
 def cmeas_exact(ctx):
+    WATCHDOG["limit"] = 240.0
     from tangelo.linq import generate_applied_gates
     mw, mu, mm, dp, cap, mp = cm_bounds(ctx.tier)
 
@@ -545,6 +577,7 @@ def cmeas_exact(ctx):
 
 @part("cmeas_sampled", quick=120, thorough=4000)
 def cmeas_sampled(ctx):
+    WATCHDOG["limit"] = 240.0
     mw, mu, mm, dp, cap, mp = cm_bounds(ctx.tier)
     cap = cap + 4
 
